@@ -1,19 +1,34 @@
 /- GENERATED: instance obligations for one logic, discharged by kernel evaluation.
-   `X ⊆ known`: every failing row is a committed known finding (Ptx/Gen/Known.lean). -/
+   `S` = the logic with its DOCUMENTED tables (Ptx/Sem/Spec.lean); rules, closure, trunk and frames
+   are what the translator read off the code.  `X ⊆ known`: every failing row is a committed
+   known finding (Ptx/Gen/Known.lean, generated from known_findings.json). -/
 import Ptx.Gen.L_FDE
 import Ptx.Gen.Known
 import Ptx.Sem.Subset
+import Ptx.Props.C01
 namespace Ptx.Gen.Obl.FDE
 open Ptx
 
-theorem tables_total : Gen.FDE.tablesTotalB = true := by decide +kernel
-theorem rules_exact : subsetB Gen.FDE.badRules (Known.badRules "FDE") = true := by decide +kernel
-theorem rules_sound : subsetB Gen.FDE.unsoundRules (Known.unsoundRules "FDE") = true := by decide +kernel
-theorem rules_total : subsetB Gen.FDE.missingRules (Known.missingRules "FDE") = true := by decide +kernel
-theorem rules_local : Gen.FDE.nonLocalRules = [] := by decide +kernel
-theorem closure_total : Gen.FDE.closureTotalB = true := by decide +kernel
-theorem closure_exact : subsetB Gen.FDE.badClosure (Known.badClosure "FDE") = true := by decide +kernel
-theorem read_total : Gen.FDE.readTotalB = true := by decide +kernel
-theorem read_exact : subsetB Gen.FDE.badRead (Known.badRead "FDE") = true := by decide +kernel
+/-- a modal / first-order extension has exactly the truth-functional tables of its base (FDE) -/
+theorem base_tables : Gen.FDE.tables.sameTF Gen.FDE.tables = true := by decide +kernel
+theorem spec_defined : Gen.FDE.specDefinedB = true := by decide +kernel
+theorem tables_spec : subsetB Gen.FDE.tableDiff (Known.tableDiff "FDE") = true := by decide +kernel
+theorem defined_ops : Gen.FDE.tables.definedOpsBad = [] := by decide +kernel
+theorem tables_total : Gen.FDE.sem.tablesTotalB = true := by decide +kernel
+theorem rules_exact : subsetB Gen.FDE.sem.badRules (Known.badRules "FDE") = true := by decide +kernel
+theorem rules_sound : subsetB Gen.FDE.sem.unsoundRules (Known.unsoundRules "FDE") = true := by decide +kernel
+theorem rules_total : subsetB Gen.FDE.sem.missingRules (Known.missingRules "FDE") = true := by decide +kernel
+theorem rules_local : Gen.FDE.sem.nonLocalRules = [] := by decide +kernel
+theorem closure_total : Gen.FDE.sem.closureTotalB = true := by decide +kernel
+theorem closure_exact : subsetB Gen.FDE.sem.badClosure (Known.badClosure "FDE") = true := by decide +kernel
+theorem read_total : Gen.FDE.sem.readTotalB = true := by decide +kernel
+theorem read_exact : subsetB Gen.FDE.sem.badRead (Known.badRead "FDE") = true := by decide +kernel
+theorem sound_core : Gen.FDE.sem.soundCoreB = true := by decide +kernel
+
+/-- C01 for this logic: a closed tableau reached by any legal derivation has no countermodel. -/
+theorem c01_valid_sound (arg : Argument) (t : Tableau)
+    (hd : Deriv Gen.FDE.sem.soundPart.noQuantPart (trunk Gen.FDE.sem arg) t) (hclosed : t.allClosed = true)
+    (M : Struct) (hM : M.Interp Gen.FDE.sem) (e : Env M.D) (w0 : M.W) : ¬ Countermodel Gen.FDE.sem M e w0 arg :=
+  Props.C01.C01_valid_sound_partial Gen.FDE.sem sound_core arg t hd hclosed M hM e w0
 
 end Ptx.Gen.Obl.FDE
